@@ -181,6 +181,53 @@ def fraction_in_unit_and_mono_full : Prop :=
       ∃ f1 f2, histogramFraction fb (.fin lo1) (.fin up1) h = .fin f1 ∧ histogramFraction fb (.fin lo2) (.fin up2) h = .fin f2 ∧
         0 ≤ f1 ∧ f1 ≤ f2 ∧ f2 ≤ 1
 
+/-! ### Finding F-C32-1 (NaN-sum histograms) and its repair
+
+`repoFixedC32F1` (PromModel/Promql/Quantile.lean) says which variant /repo currently is; the theorems
+below are about the switch-parameterised `hqFinish` / `histogramQuantileWith`, so they hold for both. -/
+
+/-- custom-bucket histogram (-Inf,1] (1,2] (2,4] with 1, 1, 2 observations, Count 4, Sum NaN -/
+def nanSumHist : NHist XR :=
+  { custom := true, count := .fin 4, sum := .nan, nNeg := 0, nPos := 3,
+    fwd := [⟨.ninf, .fin 1, .fin 1⟩, ⟨.fin 1, .fin 2, .fin 1⟩, ⟨.fin 2, .fin 4, .fin 2⟩],
+    rev := [⟨.fin 2, .fin 4, .fin 2⟩, ⟨.fin 1, .fin 2, .fin 1⟩, ⟨.ninf, .fin 1, .fin 1⟩] }
+
+def noInterp : XR → XR → XR → XR := fun _ _ _ => .nan
+
+/-- Finding F-C32-1 (the code as found): on `nanSumHist` the quantiles 1/4 and 3/8 are interpolated in
+    the LAST bucket (2,4] instead of their rank buckets (-Inf,1] and (1,2]: 3 and 5/2 — outside the rank
+    bucket and decreasing in q.  The repaired code gives 1 and 3/2. -/
+theorem histQuantile_nansum_last_bucket_witness :
+    evalHQ noInterp (histogramQuantileWith false (.fin (1/4)) nanSumHist) = .fin 3 ∧
+    evalHQ noInterp (histogramQuantileWith false (.fin (3/8)) nanSumHist) = .fin (5/2) ∧
+    evalHQ noInterp (histogramQuantileWith true (.fin (1/4)) nanSumHist) = .fin 1 ∧
+    evalHQ noInterp (histogramQuantileWith true (.fin (3/8)) nanSumHist) = .fin (3/2) := by
+  refine ⟨?_, ?_, ?_, ?_⟩ <;> decide +kernel
+
+/-- Repaired code (`fixes/F-C32-1.patch`): what `HistogramQuantile` returns is determined by the rank
+    bucket and the count reached there; the buckets the iterator has not yielded yet have no influence. -/
+theorem histQuantile_fixed_ignores_later_buckets (h : NHist XR) (fwdDir : Bool) (rank : XR) (bucket : NBucket XR)
+    (count : XR) (remaining : List (NBucket XR)) :
+    hqFinish true h fwdDir rank bucket count remaining = hqFinish true h fwdDir rank bucket count [] := by
+  simp [hqFinish]
+
+/-- …whereas in the code as found they do (same rank bucket, same count, different answer). -/
+theorem histQuantile_unfixed_depends_on_later_buckets_witness :
+    evalHQ noInterp (hqFinish false nanSumHist true (.fin 1) ⟨.ninf, .fin 1, .fin 1⟩ (.fin 1)
+        [⟨.fin 1, .fin 2, .fin 1⟩, ⟨.fin 2, .fin 4, .fin 2⟩]) = .fin 3 ∧
+    evalHQ noInterp (hqFinish false nanSumHist true (.fin 1) ⟨.ninf, .fin 1, .fin 1⟩ (.fin 1) []) = .fin 1 := by
+  constructor <;> decide +kernel
+
+/-- The repair changes nothing for histograms whose Sum is not NaN. -/
+theorem histQuantile_fix_only_nansum (q : XR) (h : NHist XR) (hs : XR.isNaN h.sum = false) :
+    histogramQuantileWith true q h = histogramQuantileWith false q h := by
+  have e : ∀ d r b c rem, hqFinish true h d r b c rem = hqFinish false h d r b c rem := by
+    intro d r b c rem
+    simp [hqFinish, FOps.isNaN, hs]
+  simp [histogramQuantileWith, e]
+
+example : XR.isNaN ({ nanSumHist with sum := .fin 7 } : NHist XR).sum = false := rfl
+
 /-! ## histogram_count / histogram_sum / histogram_avg -/
 
 /-- count, sum and their ratio; the average of a histogram with finite sum and non-zero finite count
